@@ -74,7 +74,7 @@ fn c18_one_event_iff_collector_accepts_level_and_target() {
     assert!(lvl > max || s.enabled_calls.load(SeqCst) >= 1, "C18.bridge.collector_is_consulted_when_max_level_allows");
 }
 
-// BOUND: ignore list of exactly one crate prefix against one fixed target
+// BOUND: ignore lists of one or two crate prefixes (the matching one first, second, or absent) against one fixed target
 #[kani::proof]
 #[kani::unwind(20)]
 #[kani::stub(core::fmt::Formatter::pad, pad_stub)]
@@ -83,13 +83,20 @@ fn c18_ignored_crate_prefix_yields_no_event_bounded() {
     LevelFilter::__verif_set_max(LevelFilter::TRACE);
     let s = st(3);
     let d = Dispatch::__verif_unregistered(Rec { accept: true, s: s.clone() });
-    let ignored: bool = nd();
-    let tracer = LogTracer::builder().ignore_crate(if ignored { "my_crate" } else { "other" }).__verif_build();
+    // which list: 0 = [my_crate], 1 = [other], 2 = [my_crate, other], 3 = [other, my_crate], 4 = [other, noisy]
+    let shape: u8 = nd(); kani::assume(shape < 5);
+    let b = LogTracer::builder();
+    let b = match shape { 0 => b.ignore_crate("my_crate"), 1 => b.ignore_crate("other"), 2 => b.ignore_crate("my_crate").ignore_crate("other"),
+                          3 => b.ignore_crate("other").ignore_crate("my_crate"), _ => b.ignore_crate("other").ignore_crate("noisy") };
+    let tracer = b.__verif_build();
+    let ignored = shape == 0 || shape == 2 || shape == 3;
     dispatch::with_default(&d, || {
         let rec = log::Record::builder().args(format_args!("hello")).level(log::Level::Info).target(TARGET).build();
         tracer.log(&rec);
     });
-    assert!(s.events.load(SeqCst) == (!ignored) as usize, "C18.bridge.ignored_prefix_none_otherwise_one");
+    kani::cover!(shape == 2 && s.events.load(SeqCst) == 0, "C18.reachable.two_entries_first_matches_and_record_dropped");
+    kani::cover!(shape == 4 && s.events.load(SeqCst) == 1, "C18.reachable.two_entries_none_matches_and_record_bridged");
+    assert!(s.events.load(SeqCst) == (!ignored) as usize, "C18.bridge.target_under_ANY_ignored_prefix_yields_none_otherwise_one");
 }
 
 #[kani::proof]
